@@ -26,7 +26,7 @@ SCHED_T = ['kb_schedule_2v2a']
 FROMS = ['kb_from_samples_0', 'kb_from_samples_1', 'kb_from_samples_2']
 FROMS_T = ['kb_from_samples_3']
 KEYF = ['kb_is_keyframe_h264', 'kb_is_keyframe_h265', 'kb_is_keyframe_av1_vp9']
-LANG = ['k_lang', 'k_lang_und', 'k_lang_frag']
+LANG = ['k_lang', 'k_lang_und', 'k_lang_frag', 'kb_lang_any_utf8', 'kb_lang_frag_any_utf8']
 
 PROPS = {
     'C01': {
